@@ -476,6 +476,15 @@ def verify_path(contract, cfg, c, prop="", replay_hook=None):
                 c.fail(nm, "unexpected %s: %s" % (type(out.exc).__name__, str(out.exc)[:300]), kind="raises")
             else:
                 S.prove(nm, S.AnyOf(*[_pos(m) for m in matching]) if len(matching) > 1 else _pos(matching[0]), kind="raises")
+            eor = getattr(contract, "ensures_on_raise", None)
+            if eor is not None:
+                c.in_spec += 1
+                try:
+                    post = eor(a, out.exc)
+                finally:
+                    c.in_spec -= 1
+                for name, f in post.items():
+                    S.prove("%s:post_on_raise.%s" % (label, name), f, kind="post")
         else:
             for k, (T, cond) in enumerate(rz):
                 S.prove("%s:raises.required[%s#%d]" % (label, T.__name__, k), _neg(cond), kind="raises")
